@@ -245,7 +245,7 @@ func runC10(t *mon.T, raw json.RawMessage) {
 
 func genC10(g *mon.G) {
 	r := gen.Rand(g.Seed)
-	for i := 0; i < g.Pick(200, 3000); i++ {
+	for i := 0; i < g.Pick(600, 10000); i++ {
 		g.Emit(c10Desc{Seed: r.Int63()})
 	}
 }
